@@ -134,10 +134,11 @@ func (r MemberRes) Tok(x any) string {
 
 // Case is one (schema, input) pair with everything the Lean driver needs.
 type Case struct {
-	S     *Sch
-	In    any
-	Body  string // CFG NODE V TABLE
-	Asked map[string]MemberRes
+	S      *Sch
+	In     any
+	Body   string // CFG NODE V TABLE
+	Asked  map[string]MemberRes
+	Nondet bool // a member answered differently when asked twice (record: the first failing value in map order)
 }
 
 // Build records each member's own verdict on every part of the input and renders the case.
@@ -145,6 +146,7 @@ func Build(cfg Cfg, s *Sch, in any) Case {
 	var tbl []string
 	seen := map[string]bool{}
 	asked := map[string]MemberRes{}
+	nondet := false
 	for i, m := range s.Members {
 		for _, x := range subValues(in) {
 			vx := Val(x)
@@ -155,11 +157,15 @@ func Build(cfg Cfg, s *Sch, in any) Case {
 			seen[key] = true
 			res := Ask(m, x)
 			asked[key] = res
-			tbl = append(tbl, fmt.Sprintf("%d %s %s", i, vx, res.Tok(x)))
+			tok := res.Tok(x)
+			if !res.OK && Ask(m, x).Tok(x) != tok {
+				nondet = true
+			}
+			tbl = append(tbl, fmt.Sprintf("%d %s %s", i, vx, tok))
 		}
 	}
 	body := fmt.Sprintf("%s %s %s %d%s", cfg.Tok(), s.NodeTok(0), Val(in), len(tbl), joinPrefixed(tbl))
-	return Case{S: s, In: in, Body: body, Asked: asked}
+	return Case{S: s, In: in, Body: body, Asked: asked, Nondet: nondet}
 }
 
 // Obs is what the implementation did on the case.
